@@ -11,7 +11,7 @@ import ast
 import builtins
 import json
 
-from .astutil import chain, src, walk, stmts
+from .astutil import chain, src, walk, stmts, Env
 from .report import VERIF
 
 BUILTINS = set(dir(builtins))
@@ -434,6 +434,7 @@ class _OneShot:
             self.block(st.orelse, weight)
             return True
         if isinstance(st, ast.Try):
+            before_body = self.snapshot()
             alive = self.block(st.body, weight)
             after_body = self.snapshot()
             outs = []
@@ -442,6 +443,11 @@ class _OneShot:
                 outs.append(self.snapshot() if ok else None)
             for h in st.handlers:
                 self.restore(after_body)
+                for nm_ in getattr(self, 'handler_alternative', ()):
+                    # reads inside the try body do not count on the path through this handler
+                    if nm_ in self.count and nm_ in before_body[0]:
+                        self.count[nm_] = before_body[0][nm_]
+                        self.where[nm_] = list(before_body[1].get(nm_, []))
                 outs.append(self.snapshot() if self.block(h.body, weight) else None)
             m = self.merge(outs)
             if m is None:
@@ -480,10 +486,20 @@ def one_shot(model, R, scope):
         for extra in fed:
             if extra not in names:
                 names.append(extra)
-        names = [p for p in names if (func.key, p) not in ONE_SHOT_EXCEPT]
+        # documented objects-then-properties fallback of Context.__getitem__: the key is read again only in the KeyError handler -
+        # for these parameters the handler is an alternative to the body, not its continuation
+        relaxed = {p for p in names if (func.key, p) in ONE_SHOT_EXCEPT}
         if not names:
             continue
+        # a str is itself an iterable of (one-character) labels: special-casing it changes what such an argument means
+        for node in walk(func.body):
+            if (isinstance(node, ast.Call) and isinstance(node.func, ast.Name) and node.func.id == 'isinstance' and len(node.args) == 2
+                    and isinstance(node.args[0], ast.Name) and node.args[0].id in names and (chain(node.args[1]) or [''])[-1] in ('str', 'bytes')):
+                R.bad('ONE-SHOT', func, node, f'{node.args[0].id}: every iterable of labels is treated alike', 'no special case for str',
+                      src(node), extra={'consequence': "a string argument used to be the collection of its characters ('AB' = labels A and B, '' = the empty "
+                                                       'collection); it now means one label'})
         st = _OneShot(names)
+        st.handler_alternative = relaxed
         st.block(func.body)
         for p in names:
             n += 1
@@ -619,6 +635,93 @@ def mask_sum(model, R, scope):
     R.ok('MASK-SUM', 'examined functions', 'concepts/', f'{n} mask sums scanned')
 
 
+CACHE_DECORATORS = ('lazyproperty', 'cached_property', 'lru_cache', 'cache')
+MUTABLE_MAKERS = ('list', 'dict', 'set', 'sorted', 'bools', 'copy', 'deepcopy', 'defaultdict', 'OrderedDict')
+
+
+def _mutable_value(v):
+    if isinstance(v, (ast.List, ast.Dict, ast.Set, ast.ListComp, ast.DictComp, ast.SetComp)):
+        return True
+    return isinstance(v, ast.Call) and (chain(v.func) or ['?'])[-1] in MUTABLE_MAKERS
+
+
+def shape_changes(model, R, scope):
+    """Against the frozen table of today's function shapes (pinned_shape.json):
+    KIND-CHANGE   a public function became a generator function or stopped being one - its body (argument checks, the
+                  snapshot of its arguments) now runs at the first next() instead of at the call, or the other way round;
+    NEW-CACHE     a memoising decorator was added, or the function keeps its result in an attribute/table and hands the
+                  same object out again: decided when the value is a mutable container (every caller gets - and can edit -
+                  the one cached object), otherwise not judged (staleness depends on what the value is derived from);
+    NEW-RAISE     the function raises at more places than today: whether the new condition can be met by well-formed input
+                  is not judged (exit 2, never silent)."""
+    from .normalize import PINNED_SHAPE, function_shape
+    n = 0
+    for func in scope:
+        node = func.orig if getattr(func, 'orig', None) is not None else func.node
+        pinned = PINNED_SHAPE.get(func.key)
+        cur = function_shape(node)
+        n += 1
+        public = not func.name.startswith('_') or (func.name.startswith('__') and func.name.endswith('__'))
+        rets = [x.value for x in walk(node.body) if isinstance(x, ast.Return) and x.value is not None]
+        if pinned is not None and public and func.parent is None and pinned['gen'] != cur['gen']:
+            R.bad('KIND-CHANGE', func, node, f'{func.name} stays a {"generator" if pinned["gen"] else "plain"} function',
+                  'generator function' if pinned['gen'] else 'a function whose body runs at the call',
+                  'generator function (body deferred to the first next())' if cur['gen'] else 'plain function',
+                  extra={'consequence': 'the arguments are read (and checked) at another time than documented: a collection changed between the call and '
+                                        'the iteration, or an error raised only on iteration, behave differently'})
+        added = [d for d in cur['deco'] if d in CACHE_DECORATORS and (pinned is None or d not in pinned['deco'])]
+        # home-made memo: the function assigns self.<attr> / <table>[...] and returns that very object
+        stored = {}
+        for x in walk(node.body):
+            if isinstance(x, ast.Assign):
+                for t in x.targets:
+                    if isinstance(t, ast.Attribute) and isinstance(t.value, ast.Name) and func.params and t.value.id == func.params[0]:
+                        stored[src(t)] = x.value
+                    if isinstance(t, ast.Subscript):
+                        stored[src(t)] = x.value
+                    if isinstance(t, ast.Name) and len(x.targets) > 1:
+                        stored[t.id] = x.value
+        handed_out = [r for r in rets if src(r) in stored]
+        memo = bool(handed_out) and (pinned is None or func.name not in ('__init__',)) and any(
+            isinstance(x, ast.Try) or (isinstance(x, ast.If) and isinstance(x.test, ast.Compare) and isinstance(x.test.ops[0], (ast.In, ast.NotIn, ast.Is, ast.IsNot)))
+            for x in walk(node.body))
+        # a table filled under "if key not in table" / try-except and keyed by a tuple: the key must name every parameter the cached
+        # computation reads
+        for x in walk(node.body):
+            if not (isinstance(x, ast.Assign) and len(x.targets) == 1 and isinstance(x.targets[0], ast.Subscript) and isinstance(x.value, ast.Call)):
+                continue
+            keyx = x.targets[0].slice
+            env_ = Env(func) if isinstance(keyx, ast.Name) else None
+            keyv = env_.expand(keyx) if env_ is not None else keyx
+            guarded = any(isinstance(g, ast.If) and isinstance(g.test, ast.Compare) and isinstance(g.test.ops[0], (ast.NotIn, ast.In)) and any(y is x for y in ast.walk(g))
+                          for g in walk(node.body)) or any(isinstance(g, ast.Try) and any(y is x for y in ast.walk(g)) for g in walk(node.body))
+            if not guarded or not isinstance(keyv, ast.Tuple):
+                continue
+            params_ = set(func.params[1:] if func.cls is not None else func.params)
+            a_ = node.args
+            params_ |= {q.arg for q in a_.kwonlyargs} | ({a_.kwarg.arg} if a_.kwarg else set()) | ({a_.vararg.arg} if a_.vararg else set())
+            in_key = {n_.id for n_ in ast.walk(keyv) if isinstance(n_, ast.Name)}
+            read = {n_.id for n_ in ast.walk(x.value) if isinstance(n_, ast.Name)} & params_
+            missing = sorted(read - in_key)
+            if missing:
+                R.bad('CACHE-KEY', func, x, f'{func.name}: the cache key names every parameter the cached value depends on', 'key including ' + ', '.join(sorted(read)),
+                      f'key {src(keyv)[:80]} omits {", ".join(missing)}',
+                      extra={'consequence': f'a later call that differs only in {", ".join(missing)} gets the value computed for the earlier call'})
+        if added or memo:
+            values = rets if added else [stored[src(r)] for r in handed_out]
+            what = f'@{added[0]} added' if added else f'result kept in {src(handed_out[0])} and returned again'
+            if any(_mutable_value(v) for v in values):
+                R.bad('NEW-CACHE', func, node, f'{func.name}: every call returns its own container', 'a fresh list/dict per call (or an immutable value)',
+                      f'{what}: the cached container itself is handed to every caller',
+                      extra={'consequence': 'a caller that edits the returned container changes what every later call (and the object itself) reports'})
+            elif pinned is None or added:
+                R.unknown('NEW-CACHE', func, node, f'{func.name}: memoisation', f'{what}: whether the value can go stale or be edited is not judged')
+        if pinned is not None and cur['raises'] > pinned['raises']:
+            R.unknown('NEW-RAISE', func, node, f'{func.name}: rejects only what it rejects today',
+                      f'{cur["raises"]} raise statements (today: {pinned["raises"]}): whether well-formed input can meet the new condition is not judged')
+    R.ok('SHAPE', 'examined functions', 'concepts/', f'{n} function shapes compared with the frozen table')
+
+
 def signature_order(model, R, scope):
     """Public functions keep the positional order of the parameters they have today (frozen table pinned_signatures.json):
     callers pass them by position.  New parameters may only follow the existing positional ones (or be keyword-only).
@@ -722,3 +825,4 @@ def run(model, R):
     signature_order(model, R, scope)
     id_keyed(model, R, scope)
     mask_sum(model, R, scope)
+    shape_changes(model, R, scope)
